@@ -61,15 +61,16 @@ theorem c09_subtract_with_compare {st st' : GSt} {x y out : List Label} {bal : L
       ← valLE_congr (v := v) (v' := v') (fun l hl => h2 l (hy l (mem_revIf.mp hl)))]
     exact e3
 
-/-- **`add_equal`**: True exactly when the little-endian operand equals the constant -/
-theorem c09_equal {st st' : GSt} {ins : List Label} {num : Nat} {out : Label}
-    (h : (addEqual ins num).run st = .ok (out, st')) (hw : WFS st.c) (hn : 1 ≤ ins.length)
+/-- **`add_equal`**: True exactly when the little-endian operand equals the constant — any integer constant:
+never when it does not fit, never when it is negative -/
+theorem c09_equal {st st' : GSt} {ins : List Label} {num : Int} {out : Label}
+    (h : (addEqualZ ins num).run st = .ok (out, st')) (hw : WFS st.c) (hn : 1 ≤ ins.length)
     (hin : ∀ l ∈ ins, l ∈ st.c.labels) {b v : Label → Bool} (hv : IsValB st.c b v) :
-    ∃ v', IsValB st'.c b v' ∧ (∀ l ∈ st.c.labels, v' l = v l) ∧ (v' out = true ↔ valLE v ins = num) := by
+    ∃ v', IsValB st'.c b v' ∧ (∀ l ∈ st.c.labels, v' l = v l) ∧ (v' out = true ↔ (valLE v ins : Int) = num) := by
   obtain ⟨v', h1, h2, h3⟩ := run_total h hw hv
   refine ⟨v', h1, h2, ?_⟩
   rw [← valLE_congr (v := v) (v' := v') (fun l hl => h2 l (hin l hl))]
-  exact sem_addEqual h3 hn
+  exact sem_addEqualZ h3 hn
 
 /-- **`add_plus_one`**: `(x + 1) mod 2^out_len`, whatever `out_len` is -/
 theorem c09_plus_one {st st' : GSt} {ins out : List Label} {rl : Option (List Label)} {ao be : Bool}
